@@ -104,6 +104,13 @@ def run(ctx):
             d, sizes, stored, cfg, rec = ds[(kind, nm)]
             pos = stored[len(stored) // 2]
             one(kind, nm, "chunk", pos, s["sched"])
+        # ---- an error status whose page has exactly the length the client asked for: the
+        # length check cannot tell it from data, only the status can (every request position)
+        for (kind, nm) in (("shard", 2), ("legacy", 2), ("plain", 1)):
+            d, sizes, stored, cfg, rec = ds[(kind, nm)]
+            pos = stored[len(stored) // 2]
+            for k in range(9 if kind != "plain" else 2):
+                one(kind, nm, "chunk", pos, ["Normal"] * k + ["ErrorPageFit"])
         # ---- same-accessor sessions: a faulted fetch, then fault-free fetches of another
         # chunk, of the info file and of the first chunk again through the SAME accessor
         # object (a transient server fault must not poison the accessor's state)
